@@ -327,6 +327,9 @@ fn scenario(sc: &Sc, rep: &Report) -> Result<(), String> {
             if graceful {
                 // once every client has left, exit must follow promptly (not wait for the timeout)
                 let gone_ms = (t_clients_gone.saturating_sub(ts)) / 1_000_000;
+                if sc.idle + sc.in_txn == 0 {
+                    rep.count("signals_with_no_non_admin_client_connected", 1);
+                }
                 if gone_ms + 3000 < sc.timeout_ms && lat_ms > gone_ms + 3000 {
                     rep.violation(
                         &format!("C17|did_not_exit_once_all_clients_left|signal={}", sc.signal),
@@ -361,10 +364,14 @@ pub fn run(tier: &str) -> i32 {
         .map(|i| {
             let signal = ["sigint", "admin_shutdown", "sigterm", "double_sigint", "sigint", "sigint"][i % 6];
             let big_timeout = rng.chance(1, 3);
+            // one scenario in eight: no non-admin client at all when the signal arrives (empty
+            // pooler, only an admin connection, or everybody has already left)
+            let empty = i % 8 == 7;
+            let big_timeout = big_timeout || empty;
             Sc {
                 seed: rng.next(),
-                idle: rng.range(0, 10) as usize,
-                in_txn: rng.range(0, 6) as usize,
+                idle: if empty { 0 } else { rng.range(0, 10) as usize },
+                in_txn: if empty { 0 } else { rng.range(0, 6) as usize },
                 remaining_ms: *rng.pick(&[0, 50, 150, 300, 600]),
                 timeout_ms: if big_timeout { 8000 } else { *rng.pick(&[500, 1000, 2000]) },
                 signal: signal.into(),
